@@ -9,8 +9,9 @@ every run: the options handed to `dataclass(...)` (as Boolean functions of the d
 bodies of `copy_with` / `deep_copy_with` (`CopyBody`), and the order inside `new_post_init`.
 
 Heap: a Python value is a tree whose mutable nodes (list / dict / set, and instances of plain user classes: hashable by
-identity, compared by identity, yet mutable), tuples and frozensets carry an identity; atoms (None / int / str) are pure
-values (CPython shares them).  `deepcopy` threads an allocator (`next`); the invariant
+identity, compared by identity, yet mutable), tuples, frozensets and **instances of `@frozen_dataclass` classes** (`Kind.fz`:
+not changeable in place, compared and hashed like the tuple of their fields, and holding arbitrary — also mutable — values in
+those fields) carry an identity; atoms (None / int / str) are pure values (CPython shares them).  `deepcopy` threads an allocator (`next`); the invariant
 "every live identity is below the allocator" makes every identity it hands out fresh.  A class is the list of its
 layers, most derived first (`class B(A)` = `B :: A :: …`).
 -/
@@ -28,16 +29,32 @@ inductive Kind where
   | fset                                               -- frozenset: immutable and hashable, but `copy.deepcopy` always builds a new one (`__reduce_ex__`)
   | obj                                                -- instance of a plain user class (no `__eq__` / `__hash__` / `__deepcopy__`): mutable,
                                                        -- hashable (identity hash), `==` is identity; items = its attribute values in name order
+  | fz (cid : Nat)                                     -- instance of the `@frozen_dataclass` class `cid` (every field compare=True, order=False):
+                                                       -- items = its field values in field order.  Cannot be changed in place (like a frozenset),
+                                                       -- `==` / `hash` are those of (class, tuple of fields), `<` is a TypeError; its fields may hold
+                                                       -- mutable values, and `copy.deepcopy` rebuilds it (`object.__reduce_ex__` → `copy._reconstruct`
+                                                       -- with a deep copy of the state) unless the class customises the copy protocol
 deriving DecidableEq, Repr
 
-/-- can the node be changed in place (everything with an identity except tuples and frozensets) -/
+/-- can the node be changed in place (everything with an identity except tuples, frozensets and frozen-dataclass instances) -/
 def Kind.mutable : Kind → Bool
   | .fset => false
+  | .fz _ => false
   | _ => true
 
-/-- which builtin containers compare equal / ordered across types: `{1} == frozenset({1})`, nothing else mixes -/
+/-- which nodes compare equal / ordered across kinds: `{1} == frozenset({1})`, nothing else mixes; instances of two frozen
+    dataclasses can only be equal when they are of the same class (`other.__class__ is self.__class__`) -/
 def Kind.eqKey : Kind → Nat
-  | .list => 0 | .dict => 1 | .set => 2 | .fset => 2 | .obj => 3
+  | .list => 0 | .dict => 1 | .set => 2 | .fset => 2 | .obj => 3 | .fz c => 4 + c
+
+def Kind.isFz : Kind → Bool
+  | .fz _ => true
+  | _ => false
+
+/-- does `copy.deepcopy` rebuild an instance of a `@frozen_dataclass` class from deep copies of its fields?  It does as long as the
+    decorator installs no copy-protocol hook on the class (generated fact `copyProtocolHooks`); with such a hook the model cannot
+    tell what `deepcopy` returns and takes the pessimistic reading: the instance itself (`def __deepcopy__(self, memo): return self`) -/
+def fzRebuilt : Bool := copyProtocolHooks.isEmpty
 
 def Kind.setLike (k : Kind) : Bool := k.eqKey == 2
 
@@ -88,7 +105,7 @@ end
 
 mutual
 /-- Python `==` on this value universe: structural on builtin containers (set == frozenset allowed), **identity** on
-    instances of plain classes (`object.__eq__`) -/
+    instances of plain classes (`object.__eq__`), (same class ∧ equal field tuples) on instances of frozen dataclasses -/
 def Obj.veq : Obj → Obj → Bool
   | .atom a, .atom b => a == b
   | .tup _ xs, .tup _ ys => veqL xs ys
@@ -103,11 +120,12 @@ end
 
 mutual
 /-- `hash(v)` works: atoms, frozensets and instances of plain classes (identity hash, whatever they hold) are hashable,
-    list / dict / set are not, a tuple is iff all its items are -/
+    list / dict / set are not, a tuple is iff all its items are, and so is an instance of a frozen dataclass (the generated
+    `__hash__` hashes the tuple of fields) -/
 def Obj.hashable : Obj → Bool
   | .atom _ => true
   | .tup _ items => hashableL items
-  | .box k _ _ => k == .fset || k == .obj
+  | .box k _ items => if k.isFz then hashableL items else (k == .fset || k == .obj)
 def hashableL : List Obj → Bool
   | [] => true
   | x :: xs => x.hashable && hashableL xs
@@ -139,7 +157,9 @@ def identL : List Obj → List Obj → Bool
 mutual
 /-- `copy.deepcopy` (no aliasing inside the value: the memo is not modelled): every mutable node — list / dict / set, and an
     instance of a plain class, which is rebuilt by `_reconstruct` with a deep copy of its `__dict__` — and every frozenset
-    (`__reduce_ex__`: a new one from the copied members) gets the next free identity;
+    (`__reduce_ex__`: a new one from the copied members) gets the next free identity; so does an instance of a frozen dataclass
+    (`__reduce_ex__` → `_reconstruct`: a new instance whose state is a deep copy of the old state), **provided the decorator
+    leaves the copy protocol of the class alone** (`fzRebuilt`) — otherwise the instance is returned as it is;
     atoms are returned as they are; a tuple keeps its identity iff all copied items are identical to the old ones
     (`_deepcopy_tuple`), otherwise it is a new tuple -/
 def deepcopy : Obj → Nat → Obj × Nat
@@ -147,7 +167,8 @@ def deepcopy : Obj → Nat → Obj × Nat
   | .tup i items, n =>
       let (items', n') := deepcopyL items n
       if identL items items' then (.tup i items', n') else (.tup n' items', n' + 1)
-  | .box k _ items, n =>
+  | .box k i items, n =>
+      if k.isFz && !fzRebuilt then (.box k i items, n) else
       let (items', n') := deepcopyL items (n + 1)
       (.box k n items', n')
 def deepcopyL : List Obj → Nat → List Obj × Nat
@@ -173,7 +194,7 @@ def Obj.vlt : Obj → Obj → Option Bool
   | .box k _ xs, .box k' _ ys =>
       if k == .list && k' == .list then lexLt xs ys
       else if k.setLike && k'.setLike then some (xs.all (fun x => ys.any (fun y => x.veq y)) && decide (xs.length < ys.length))
-      else none                                          -- dicts, instances of plain classes, mixed kinds: TypeError
+      else none                                          -- dicts, instances of plain classes / of frozen dataclasses (order=False), mixed kinds: TypeError
   | _, _ => none
 /-- sequence comparison: the first pair of items that are not equal decides (with their own `<`), otherwise the lengths -/
 def lexLt : List Obj → List Obj → Option Bool
@@ -257,8 +278,8 @@ def stdOrderOk : List FieldR → Bool → Bool
       if hasDefault f then stdOrderOk fs true else (!seen && stdOrderOk fs seen)
     else stdOrderOk fs seen
 
-/-- `dataclasses` refuses a default whose class has `__hash__ = None` (list / dict / set); a frozenset or an instance of a
-    plain class is accepted -/
+/-- `dataclasses` refuses a default whose class has `__hash__ = None` (list / dict / set); a frozenset, an instance of a
+    plain class or an instance of a frozen dataclass (whatever its fields hold) is accepted -/
 def mutableDefault (f : FieldD) : Bool :=
   match f.dflt with
   | .value (.box k _ _) => k == .list || k == .dict || k == .set
